@@ -290,6 +290,34 @@ func init() {
 		}
 		return Tuple{cell, w.nilError()}
 	})
+	reg("verifnd.DialReturns", func(w *World, t *Thread, fr *frame, fn *ssa.Function, args []Value) Value {
+		w.ext["dialconn"] = args[0]
+		w.ext["dialerr"] = args[1]
+		return nil
+	})
+	reg("verifnd.Dialed", func(w *World, t *Thread, fr *frame, fn *ssa.Function, args []Value) Value {
+		if v, ok := w.ext["dialed"]; ok {
+			return v
+		}
+		return Str{}
+	})
+	reg("verifnd.LiveThreads", func(w *World, t *Thread, fr *frame, fn *ssa.Function, args []Value) Value {
+		n := 0
+		for _, o := range w.threads {
+			if o != t && !o.done && !o.daemon {
+				n++
+			}
+		}
+		return w.tt.BV(64, uint64(n))
+	})
+	reg("net.Dial", func(w *World, t *Thread, fr *frame, fn *ssa.Function, args []Value) Value {
+		w.ext["dialed"] = args[1]
+		c, ok := w.ext["dialconn"]
+		if !ok {
+			return Tuple{Iface{}, w.mkError("dial: connection refused (no scripted connection)")}
+		}
+		return Tuple{c, w.ext["dialerr"]}
+	})
 	reg("verifnd.Thorough", func(w *World, t *Thread, fr *frame, fn *ssa.Function, args []Value) Value {
 		return w.tt.Bool(currentTier == "thorough")
 	})
